@@ -23,4 +23,11 @@ CHECKS["C13"] = dict(
     note="Process death only (not power loss); amd64 compiler engine; modules are three small generated ones; hooks H2 mark the steps of fileCache.Add.",
 )
 
+CHECKS["C14"] = dict(
+    technique="TLA+ model of memory limits, growth and views (Memory.tla) checked by TLC; TLC-enumerated and simulated behaviours replayed on both engines x two allocators x two scale maps (1 unit = 1 page; 4 units = 4 GiB) with every result and all size views compared after each step",
+    text="TLC checks SizeWithinBounds/GrowMonotone/ZeroFill/ContentsPreserved over all declarations (min, max, limit, capacity-from-max) and enumerates every single operation and every pair/triple of core operations for every declaration, plus seeded longer walks; each behaviour is executed against real memories on the interpreter and the compiler, with the default allocator and a guard-page allocator, at page scale and at 4 GiB scale (real 4 GiB reservations): acceptance of the declaration, grow results from guest / host / through an importing instance, memory.size vs host pages vs Size(), tag bytes read back through both views, and host/guest accesses at the edges (size-k, size, 2^32-k) for every accessor; concurrent growth of a shared memory is checked for linearizability against the sequential Grow.",
+    design_ref="§4 C14",
+    note="Sizes are multiples of the unit except for +1-page requests; multi-GiB behaviours are sampled for the copying default allocator (all run with the guard allocator); amd64 only.",
+)
+
 NOT_YET = "check not built yet in this round (work in progress; see DESIGN.md §4)"
